@@ -70,16 +70,16 @@ theorem pend_init (hack : Bool) (f0 : Flow) (r : AReq) (wr0 : BodyWriter) (P : B
 
 /-- from a finished send side (state `RecvResponse`) into the receive invariant -/
 theorem x_enter_recv (hack : Bool) (f0 : Flow) (r : AReq) (wr0 : BodyWriter) (P : Bytes) (I H : Head) (b0 : BPos) (tail pre : Bytes)
-    (X : XSetup hack f0 r wr0 P I H b0 pre) (f : Flow) (so : SendObs) (o : RecvObs)
+    (X : XSetup hack f0 r wr0 P I H b0 pre) (htail : b0.isClose = true → tail = []) (f : Flow) (so : SendObs) (o : RecvObs)
     (hD : SendD f0 r wr0 P f so) (hp : Pend f0 pre f.await100 o) : XInv hack f0 r wr0 P H b0 tail pre (f, so, o) := by
   obtain ⟨hst, hh, hcr, hreq, hspec, hoff⟩ := hD
   rcases hp with ⟨h1, h2, h3⟩ | ⟨h1, h2⟩
   · exact Or.inr (Or.inr (Or.inr (Or.inl ⟨hst, hh, h1, h2, h3, by rw [hcr]; exact X.hnd, hreq, hspec, hoff⟩)))
-  · refine Or.inr (Or.inr (Or.inr (Or.inr ⟨hspec, hoff, f, {}, ⟨?_, hst, hh, by rw [hcr]; exact X.hnd⟩, h2, ⟨rfl, Or.inl ⟨rfl, rfl⟩⟩⟩)))
+  · refine Or.inr (Or.inr (Or.inr (Or.inr ⟨hspec, hoff, f, {}, ⟨?_, hst, hh, by rw [hcr]; exact X.hnd⟩, h2, ⟨htail, rfl, Or.inl ⟨rfl, rfl⟩⟩⟩)))
     rw [hreq]; exact X.resp
 
 theorem x_step_inv (hack : Bool) (f0 : Flow) (r : AReq) (wr0 : BodyWriter) (P : Bytes) (I H : Head) (b0 : BPos) (tail pre : Bytes)
-    (X : XSetup hack f0 r wr0 P I H b0 pre) (x : Flow × SendObs × RecvObs) (s : IoStep)
+    (X : XSetup hack f0 r wr0 P I H b0 pre) (htail : b0.isClose = true → tail = []) (x : Flow × SendObs × RecvObs) (s : IoStep)
     (h : XInv hack f0 r wr0 P H b0 tail pre x) :
     XInv hack f0 r wr0 P H b0 tail pre (xStep hack P (pre ++ (H.enc ++ b0.enc ++ tail)) x s) := by
   obtain ⟨f, so, o⟩ := x
@@ -98,11 +98,11 @@ theorem x_step_inv (hack : Bool) (f0 : Flow) (r : AReq) (wr0 : BodyWriter) (P : 
     rcases hAB with hA | hB
     · exact Or.inl ⟨Or.inr (send_step_A hack f0 r wr0 P X.send f so s hA), ho⟩
     · rcases send_step_B hack f0 r wr0 P X.send f so s hB with hB | ⟨hC, hf, hf0⟩ | ⟨hD, hf⟩ | ⟨h1, h2, h3, h4⟩
-      · exact Or.inl ⟨Or.inr hB, ho⟩
+      · exact Or.inl ⟨Or.inr hB.1, ho⟩
       · refine Or.inr (Or.inr (Or.inl ⟨hC, ?_⟩))
         show Pend f0 pre (sendStep hack P (f, so) s).1.await100 o
         rw [hf, ho, ← hf0]; exact hpi
-      · apply x_enter_recv hack f0 r wr0 P I H b0 tail pre X _ _ _ hD
+      · apply x_enter_recv hack f0 r wr0 P I H b0 tail pre X htail _ _ _ hD
         rw [hf, ho]; exact hpi
       · refine Or.inr (Or.inl ⟨h1, h3, h4, ?_⟩)
         show Pend f0 pre (sendStep hack P (f, so) s).1.await100 o
@@ -157,10 +157,10 @@ theorem x_step_inv (hack : Bool) (f0 : Flow) (r : AReq) (wr0 : BodyWriter) (P : 
     rw [hx]
     obtain ⟨hcase, haw⟩ := send_step_C hack f0 r wr0 P f so s hC
     rcases hcase with hC' | hD'
-    · refine Or.inr (Or.inr (Or.inl ⟨hC', ?_⟩))
+    · refine Or.inr (Or.inr (Or.inl ⟨hC'.1, ?_⟩))
       show Pend f0 pre (sendStep hack P (f, so) s).1.await100 o
       rw [haw]; exact hp
-    · apply x_enter_recv hack f0 r wr0 P I H b0 tail pre X _ _ _ hD'
+    · apply x_enter_recv hack f0 r wr0 P I H b0 tail pre X htail _ _ _ hD'
       rw [haw]; exact hp
   · -- RecvResponse with the interim 100 still to come
     dsimp only at hst hh haw h0 ho hnd hreq hspec hoff
@@ -199,7 +199,7 @@ theorem x_step_inv (hack : Bool) (f0 : Flow) (r : AReq) (wr0 : BodyWriter) (P : 
     · rw [List.take_append, List.take_of_length_le (by omega),
         C11_late hack f hh haw I X.int.hw X.int.hf X.int.hc]
       dsimp only
-      refine Or.inr (Or.inr (Or.inr (Or.inr ⟨hspec, hoff, { f with await100 := false }, {}, ⟨?_, hst, hh, hnd⟩, ?_, ⟨rfl, Or.inl ⟨rfl, rfl⟩⟩⟩)))
+      refine Or.inr (Or.inr (Or.inr (Or.inr ⟨hspec, hoff, { f with await100 := false }, {}, ⟨?_, hst, hh, hnd⟩, ?_, ⟨htail, rfl, Or.inl ⟨rfl, rfl⟩⟩⟩)))
       · show RespOk hack H b0 f.call.req.method
         rw [hreq]; exact X.resp
       · show ({ ({} : RecvObs) with consumed := ({} : RecvObs).consumed + I.enc.length } : RecvObs) = ({} : RecvObs).shift pre.length
@@ -207,7 +207,7 @@ theorem x_step_inv (hack : Bool) (f0 : Flow) (r : AReq) (wr0 : BodyWriter) (P : 
   · -- the receive side proper
     dsimp only at hw hoff hsh hri
     have hstates : f.st = .recvResponse ∨ f.st = .recvBody ∨ f.st = .redirect ∨ f.st = .cleanup := by
-      obtain ⟨_, hA | hB | hC⟩ := hri
+      obtain ⟨_, _, hA | hB | hC⟩ := hri
       · left; rw [hA.1]; exact S.hst
       · obtain ⟨b, _, hst, _⟩ := hB; right; left; exact hst
       · right; right; rw [hC.1]; unfold terminalSt; split <;> simp
@@ -221,7 +221,7 @@ theorem x_step_inv (hack : Bool) (f0 : Flow) (r : AReq) (wr0 : BodyWriter) (P : 
     exact Or.inr (Or.inr (Or.inr (Or.inr ⟨hw, hoff, f1, _, S, rfl, recv_step_inv hack H b0 tail f1 S f o' s hri⟩)))
 
 theorem x_run_inv (hack : Bool) (f0 : Flow) (r : AReq) (wr0 : BodyWriter) (P : Bytes) (I H : Head) (b0 : BPos) (tail pre : Bytes)
-    (X : XSetup hack f0 r wr0 P I H b0 pre) (σ : List IoStep) :
+    (X : XSetup hack f0 r wr0 P I H b0 pre) (htail : b0.isClose = true → tail = []) (σ : List IoStep) :
     XInv hack f0 r wr0 P H b0 tail pre (xRun hack P (pre ++ (H.enc ++ b0.enc ++ tail)) f0 σ) := by
   unfold xRun
   have gen : ∀ (σ : List IoStep) (x : Flow × SendObs × RecvObs), XInv hack f0 r wr0 P H b0 tail pre x →
@@ -229,7 +229,7 @@ theorem x_run_inv (hack : Bool) (f0 : Flow) (r : AReq) (wr0 : BodyWriter) (P : B
     intro σ
     induction σ with
     | nil => intro x hx; exact hx
-    | cons s rest ih => intro x hx; rw [List.foldl_cons]; exact ih _ (x_step_inv hack f0 r wr0 P I H b0 tail pre X x s hx)
+    | cons s rest ih => intro x hx; rw [List.foldl_cons]; exact ih _ (x_step_inv hack f0 r wr0 P I H b0 tail pre X htail x s hx)
   exact gen σ _ (Or.inl ⟨Or.inl ⟨rfl, rfl⟩, rfl⟩)
 
 theorem take_flatten_prefix (l : List Bytes) (k : Nat) : (l.take k).flatten <+: l.flatten := by
@@ -285,3 +285,266 @@ theorem sendSetup_of_new_body (m : Method) (v : Version) (u : Uri) (orig : List 
   refine ⟨rfl, han, rfl, (hok han).1, ?_, by simp [Flow.new], hwr, hne han (by simp [Flow.new]), ?_⟩
   · rw [hph]; simp [Flow.new]
   · exact Or.inr ⟨by simp [Flow.new, hnb], by simp [Flow.new, hnb], hk⟩
+
+
+/-! ## No schedule can wedge the exchange -/
+
+/-- a step that lets every call make progress: everything the server will send has arrived, the buffer
+    holds the longest head line and the smallest chunk (6 bytes) -/
+def IoStep.full (r : AReq) (T : Nat) (s : IoStep) : Prop :=
+  T ≤ s.m ∧ 6 ≤ s.cap ∧ ∀ u ∈ headUnits r, u.length ≤ s.cap
+
+/-- work left: head lines, payload bytes, server bytes, plus the state changes in between -/
+def xMeasure (r : AReq) (P : Bytes) (T : Nat) (x : Flow × SendObs × RecvObs) : Nat :=
+  match x.1.st with
+  | .prepare => (headUnits r).length + P.length + 6 + (T + 2)
+  | .sendRequest => ((headUnits r).length - headPos x.1.call.analyzeRequest.1) + P.length + 5 + (T + 2)
+  | .await100 => (if x.1.await100 then 1 else 0) + P.length + 3 + (T + 2)
+  | .sendBody => (P.length - x.2.1.off) + 2 + (T + 2)
+  | .recvResponse => 1 + (T - x.2.2.consumed)
+  | .recvBody => T - x.2.2.consumed
+  | _ => 0
+
+theorem headAt_pos (r : AReq) (wr0 : BodyWriter) (c : CallSt) (w : Bytes) (h : HeadAt r wr0 c w) :
+    headPos c.analyzeRequest.1 < (headUnits r).length := by
+  obtain ⟨_, h2, _, h4, h5, _⟩ := h
+  have hul : (headUnits r).length = r.headers.length + 1 := by simp [headUnits, headerUnits_length]
+  unfold headPos
+  rw [h2]
+  cases hq : c.analyzeRequest.1.phase <;> simp [hq, Phase.isPrelude, validPhase, phasePos] at h5 h4 ⊢ <;> omega
+
+theorem pend_consumed (f0 : Flow) (pre : Bytes) (aw : Bool) (o : RecvObs) (h : Pend f0 pre aw o) : o.consumed ≤ pre.length := by
+  rcases h with ⟨_, _, rfl⟩ | ⟨_, rfl⟩
+  · exact Nat.zero_le _
+  · simp [RecvObs.shift]
+
+theorem recvMeasure_resp (t : Nat) (f : Flow) (o : RecvObs) (h : f.st = .recvResponse) :
+    recvMeasure t (f, o) = 1 + (t - o.consumed) := by simp [recvMeasure, h]
+
+theorem recvMeasure_body (t : Nat) (f : Flow) (o : RecvObs) (h : f.st = .recvBody) :
+    recvMeasure t (f, o) = t - o.consumed := by simp [recvMeasure, h]
+
+theorem xm_resp (r : AReq) (P : Bytes) (T : Nat) (f : Flow) (so : SendObs) (o : RecvObs) (h : f.st = .recvResponse) :
+    xMeasure r P T (f, so, o) = 1 + (T - o.consumed) := by simp [xMeasure, h]
+
+theorem xm_body (r : AReq) (P : Bytes) (T : Nat) (f : Flow) (so : SendObs) (o : RecvObs) (h : f.st = .recvBody) :
+    xMeasure r P T (f, so, o) = T - o.consumed := by simp [xMeasure, h]
+
+/-- a full step from any reachable state completes the exchange or strictly reduces the work left -/
+theorem x_step_progress (hack : Bool) (f0 : Flow) (r : AReq) (wr0 : BodyWriter) (P : Bytes) (I H : Head) (b0 : BPos) (tail pre : Bytes)
+    (X : XSetup hack f0 r wr0 P I H b0 pre) (htail : b0.isClose = true → tail = []) (x : Flow × SendObs × RecvObs) (s : IoStep)
+    (h : XInv hack f0 r wr0 P H b0 tail pre x)
+    (hfull : s.full r (pre.length + (H.enc.length + b0.enc.length))) :
+    recvDone (xStep hack P (pre ++ (H.enc ++ b0.enc ++ tail)) x s).1 = true ∨
+    xMeasure r P (pre.length + (H.enc.length + b0.enc.length)) (xStep hack P (pre ++ (H.enc ++ b0.enc ++ tail)) x s) <
+      xMeasure r P (pre.length + (H.enc.length + b0.enc.length)) x := by
+  obtain ⟨hm, hcap, hbig⟩ := hfull
+  obtain ⟨f, so, o⟩ := x
+  have hIpos : 0 < I.enc.length := by
+    simp [Head.enc, Head.statusLine]
+  rcases h with ⟨hAB, ho⟩ | ⟨hst, h0, hA, hp⟩ | ⟨hC, hp⟩ | ⟨hst, hh, haw, h0, ho, hnd, hreq, hspec, hoff⟩ | ⟨hw, hoff, f1, o', S, hsh, hri⟩
+  · -- Prepare / SendRequest
+    dsimp only at hAB ho
+    have hst : f.st = .prepare ∨ f.st = .sendRequest := by
+      rcases hAB with hA | hB
+      · left; rw [hA.1]; exact X.send.hst
+      · right; exact hB.1
+    have hx : xStep hack P (pre ++ (H.enc ++ b0.enc ++ tail)) (f, so, o) s =
+        ((sendStep hack P (f, so) s).1, (sendStep hack P (f, so) s).2, o) := by
+      unfold xStep; rcases hst with e | e <;> simp [e]
+    rw [hx]
+    right
+    rcases hAB with hA | hB
+    · have hB' := send_step_A hack f0 r wr0 P X.send f so s hA
+      have hfst : f.st = .prepare := by rw [hA.1]; exact X.send.hst
+      unfold xMeasure
+      simp only [hB'.1, hfst]
+      omega
+    · have hposB := headAt_pos r wr0 f.call so.wire hB.2.2.2.2.2.2
+      rcases send_step_B hack f0 r wr0 P X.send f so s hB with ⟨hB', hlt⟩ | ⟨hC, _, _⟩ | ⟨hD, _⟩ | ⟨h1, _, _, _⟩
+      · have hpos' := headAt_pos r wr0 _ _ hB'.2.2.2.2.2.2
+        have := hlt hbig
+        unfold xMeasure
+        simp only [hB'.1, hB.1]
+        omega
+      · unfold xMeasure
+        simp only [hC.1, hB.1]
+        omega
+      · unfold xMeasure
+        simp only [hD.1, hB.1]
+        omega
+      · unfold xMeasure
+        simp only [h1, hB.1]
+        split <;> omega
+  · -- Await100
+    dsimp only at hst h0 hA hp
+    have hpreI : pre = I.enc := by
+      rcases X.hpre with ⟨_, h⟩ | ⟨h, _⟩
+      · exact h
+      · rw [h0] at h; cases h
+    right
+    unfold xStep
+    simp only [hst]
+    by_cases hgo : (!f.await100 || s.giveUp) = true
+    · simp only [hgo, if_true]
+      rw [flow_step_await hack f _ hst]
+      have hpr : stepAwait100 f .proceed = enterSendBody f := by
+        unfold stepAwait100; simp [hA.2.1]
+      rw [hpr]
+      obtain ⟨he, hinv⟩ := enter_body_inv f0 r wr0 P f so hA
+      rw [he]
+      unfold xMeasure
+      simp only [hst]
+      have hoff0 : so.off = 0 := hA.2.2.2.2.2.2.2.2.2
+      show (P.length - so.off) + 2 + _ < _
+      split <;> omega
+    · simp only [hgo, Bool.false_eq_true, if_false]
+      have hawt : f.await100 = true := by
+        cases hq : f.await100 <;> simp [hq] at hgo ⊢
+      have ho : o = {} := by
+        rcases hp with ⟨_, _, h⟩ | ⟨h, _⟩
+        · exact h
+        · rw [hawt] at h; cases h
+      rw [flow_step_await hack f _ hst, ho]
+      have hwin : ((pre ++ (H.enc ++ b0.enc ++ tail)).drop ({} : RecvObs).consumed).take s.m =
+          (I.enc ++ (H.enc ++ b0.enc ++ tail)).take s.m := by
+        show ((pre ++ (H.enc ++ b0.enc ++ tail)).drop 0).take s.m = _
+        rw [List.drop_zero, hpreI]
+      have hmI : I.enc.length ≤ s.m := by rw [hpreI] at hm; omega
+      rw [hwin, List.take_append, List.take_of_length_le hmI,
+        C11_continue f I X.int.hw X.int.hf X.int.hc hA.2.1]
+      dsimp only
+      unfold xMeasure
+      simp only [hst, hawt, if_true]
+      simp
+  · -- SendBody
+    dsimp only at hC hp
+    have hx : xStep hack P (pre ++ (H.enc ++ b0.enc ++ tail)) (f, so, o) s =
+        ((sendStep hack P (f, so) s).1, (sendStep hack P (f, so) s).2, o) := by
+      unfold xStep; simp [hC.1]
+    rw [hx]
+    right
+    obtain ⟨hcase, _⟩ := send_step_C hack f0 r wr0 P f so s hC
+    rcases hcase with ⟨hC', hlt⟩ | hD'
+    · have hle := (sendC_wire f0 r wr0 P _ _ hC').2
+      have := hlt hcap
+      unfold xMeasure
+      simp only [hC'.1, hC.1]
+      omega
+    · unfold xMeasure
+      simp only [hD'.1, hC.1]
+      omega
+  · -- RecvResponse with the interim 100 still to come
+    dsimp only at hst hh haw h0 ho hnd hreq hspec hoff
+    have hpreI : pre = I.enc := by
+      rcases X.hpre with ⟨_, h⟩ | ⟨h, _⟩
+      · exact h
+      · rw [h0] at h; cases h
+    right
+    have hx : xStep hack P (pre ++ (H.enc ++ b0.enc ++ tail)) (f, so, o) s =
+        ((recvStep hack (pre ++ (H.enc ++ b0.enc ++ tail)) (f, o) s).1, so, (recvStep hack (pre ++ (H.enc ++ b0.enc ++ tail)) (f, o) s).2) := by
+      unfold xStep; simp [hst]
+    rw [hx, ho]
+    unfold recvStep
+    simp only [hst]
+    rw [flow_step_resp hack f _ hst]
+    have hwin : ((pre ++ (H.enc ++ b0.enc ++ tail)).drop ({} : RecvObs).consumed).take s.m =
+        (I.enc ++ (H.enc ++ b0.enc ++ tail)).take s.m := by
+      show ((pre ++ (H.enc ++ b0.enc ++ tail)).drop 0).take s.m = _
+      rw [List.drop_zero, hpreI]
+    have hmI : I.enc.length ≤ s.m := by rw [hpreI] at hm; omega
+    rw [hwin, List.take_append, List.take_of_length_le hmI,
+      C11_late hack f hh haw I X.int.hw X.int.hf X.int.hc]
+    dsimp only
+    unfold xMeasure
+    simp only [hst]
+    show 1 + (_ - (0 + I.enc.length)) < 1 + (_ - 0)
+    rw [hpreI]
+    omega
+  · -- the receive side proper
+    dsimp only at hw hoff hsh hri
+    have hstates : f.st = .recvResponse ∨ f.st = .recvBody ∨ f.st = .redirect ∨ f.st = .cleanup := by
+      obtain ⟨_, _, hA | hB | hC⟩ := hri
+      · left; rw [hA.1]; exact S.hst
+      · obtain ⟨b, _, hst, _⟩ := hB; right; left; exact hst
+      · right; right; rw [hC.1]; unfold terminalSt; split <;> simp
+    have hx : xStep hack P (pre ++ (H.enc ++ b0.enc ++ tail)) (f, so, o) s =
+        ((recvStep hack (pre ++ (H.enc ++ b0.enc ++ tail)) (f, o) s).1, so, (recvStep hack (pre ++ (H.enc ++ b0.enc ++ tail)) (f, o) s).2) := by
+      unfold xStep
+      rcases hstates with e | e | e | e <;> simp [e]
+      · rw [recvStep_done hack _ (f, o) s (by simp [recvDone, e])]; exact ⟨rfl, rfl⟩
+      · rw [recvStep_done hack _ (f, o) s (by simp [recvDone, e])]; exact ⟨rfl, rfl⟩
+    rw [hx, hsh, recvStep_shift]
+    rcases recv_step_progress hack H b0 tail f1 S f o' s hri (by omega) (by omega) with hd | hlt
+    · exact Or.inl hd
+    · have hinv2 := recv_step_inv hack H b0 tail f1 S f o' s hri
+      have hsafe2 := recv_safe_of_inv H b0 tail f1 _ _ S.hst hinv2
+      generalize hy : recvStep hack (H.enc ++ b0.enc ++ tail) (f, o') s = y at hlt hinv2 hsafe2 ⊢
+      obtain ⟨f2, o2⟩ := y
+      dsimp only at hlt hsafe2 ⊢
+      by_cases hq' : recvDone f2 = true
+      · exact Or.inl hq'
+      · have hq : recvDone f2 = false := by simpa using hq'
+        right
+        have hst2 := (hsafe2.2.2.2.2 hq).1
+        have hold : f.st = .recvResponse ∨ f.st = .recvBody := by
+          rcases hstates with e | e | e | e
+          · exact Or.inl e
+          · exact Or.inr e
+          · rw [recvStep_done hack _ (f, o') s (by simp [recvDone, e])] at hy
+            injection hy with h1 h2; rw [← h1] at hq; simp [recvDone, e] at hq
+          · rw [recvStep_done hack _ (f, o') s (by simp [recvDone, e])] at hy
+            injection hy with h1 h2; rw [← h1] at hq; simp [recvDone, e] at hq
+        rcases hold with e | e <;> rcases hst2 with h2 | h2 <;>
+          (simp only [recvMeasure_resp, recvMeasure_body, e, h2, xm_resp, xm_body, RecvObs.shift] at hlt ⊢; omega)
+
+theorem xStep_done (hack : Bool) (P stream : Bytes) (x : Flow × SendObs × RecvObs) (s : IoStep) (h : recvDone x.1 = true) :
+    xStep hack P stream x s = x := by
+  unfold recvDone at h
+  have : x.1.st = .redirect ∨ x.1.st = .cleanup := by simpa using h
+  unfold xStep
+  rcases this with e | e <;> simp [e]
+
+theorem xFold_done (hack : Bool) (P stream : Bytes) (σ : List IoStep) (x : Flow × SendObs × RecvObs) (h : recvDone x.1 = true) :
+    σ.foldl (xStep hack P stream) x = x := by
+  induction σ with
+  | nil => rfl
+  | cons s rest ih => rw [List.foldl_cons, xStep_done hack P stream x s h, ih]
+
+theorem xMeasure_le (r : AReq) (P : Bytes) (T : Nat) (x : Flow × SendObs × RecvObs) :
+    xMeasure r P T x ≤ (headUnits r).length + P.length + T + 8 := by
+  unfold xMeasure
+  split <;> (try split) <;> omega
+
+theorem x_live_aux (hack : Bool) (f0 : Flow) (r : AReq) (wr0 : BodyWriter) (P : Bytes) (I H : Head) (b0 : BPos) (tail pre : Bytes)
+    (X : XSetup hack f0 r wr0 P I H b0 pre) (htail : b0.isClose = true → tail = []) :
+    ∀ (k : Nat) (x : Flow × SendObs × RecvObs), XInv hack f0 r wr0 P H b0 tail pre x →
+      (recvDone x.1 = true ∨ xMeasure r P (pre.length + (H.enc.length + b0.enc.length)) x ≤ k) →
+      ∀ σ : List IoStep, (∀ s ∈ σ, s.full r (pre.length + (H.enc.length + b0.enc.length))) → k + 1 ≤ σ.length →
+      recvDone (σ.foldl (xStep hack P (pre ++ (H.enc ++ b0.enc ++ tail))) x).1 = true := by
+  intro k
+  induction k with
+  | zero =>
+    intro x hx hk σ hfull hlen
+    rcases hk with hd | hk
+    · rw [xFold_done hack P _ σ x hd]; exact hd
+    · cases σ with
+      | nil => simp at hlen
+      | cons s rest =>
+        rw [List.foldl_cons]
+        rcases x_step_progress hack f0 r wr0 P I H b0 tail pre X htail x s hx (hfull s (by simp)) with hd | hlt
+        · rw [xFold_done hack P _ rest _ hd]; exact hd
+        · omega
+  | succ k ih =>
+    intro x hx hk σ hfull hlen
+    rcases hk with hd | hk
+    · rw [xFold_done hack P _ σ x hd]; exact hd
+    · cases σ with
+      | nil => simp at hlen
+      | cons s rest =>
+        rw [List.foldl_cons]
+        have hinv := x_step_inv hack f0 r wr0 P I H b0 tail pre X htail x s hx
+        refine ih _ hinv ?_ rest (fun t ht => hfull t (by simp [ht])) (by simp at hlen; omega)
+        rcases x_step_progress hack f0 r wr0 P I H b0 tail pre X htail x s hx (hfull s (by simp)) with hd | hlt
+        · exact Or.inl hd
+        · right; omega
